@@ -41,7 +41,7 @@ class World:
         self.files = [os.path.join(root, 'f0.py'), os.path.join(root, 'f1.py')]
         self.cdirs = [os.path.join(root, 'cacheA'), os.path.join(root, 'cacheB')]
         self.content = {}
-        self.next_content = {f: 0 for f in self.files}
+        self.next_content = {f: i for i, f in enumerate(self.files)}      # the two files never hold the same text initially
         self.grammars = [parso.load_grammar(version='3.6'), parso.load_grammar(version='3.12')]
         self._orig_getmtime = os.path.getmtime
         self._orig_save = pc._save_to_file_system
